@@ -1,3 +1,97 @@
-From TV Require Import Base.
-Theorem C02_placeholder : True. Proof. exact I. Qed.
-Print Assumptions C02_placeholder.
+(* C02 -- read_until_prompt returns exactly the pre-prompt data for any split of the stream.
+   Property theorems only: each is closed by `exact` of a lemma proved in ProofC02.v / RegexLemmas.v. *)
+From TV Require Import Base BaseLemmas Utf8 Regex RegexLemmas Channel ChannelLemmas ProofC02.
+
+(* (1) Returns only at a moment when everything received so far passes the prompt test, returns
+       exactly the text of what precedes the prompt, and has consumed exactly `data`, nothing beyond:
+       for EVERY fragmentation, timeout, set of death strings and attached streams. *)
+Theorem C02_returns_at_prompt_with_exact_result :
+  forall fuel start tmo buf c out c',
+  wfc c -> rup_loop fuel start tmo buf c = (Ret out, c') ->
+  exists data k,
+    data <> [] /\ cpend c = data ++ cpend c' /\
+    prompt_split (prompt c) (buf ++ data) = Some k /\
+    out = text (firstn k (buf ++ data)) /\ same_cfg c c' /\ wfc c'.
+Proof. exact rup_loop_sound. Qed.
+Print Assumptions C02_returns_at_prompt_with_exact_result.
+
+(* (1b) ... and it returns at the FIRST such moment: the loop inspects the whole buffer after every piece *)
+Theorem C02_returns_as_soon_as_prompt_seen :
+  forall f start tmo buf c,
+  rup_loop (S f) start tmo buf c =
+  match iter_step start tmo READ_CHUNK_SIZE c with
+  | (STimeout, c') => (ETimeout, c')
+  | (SBlocked, c') => (EBlocked, c')
+  | (SDeath e mt, c') => (EDeath e mt, c')
+  | (SData new, c') =>
+      match prompt_split (prompt c') (buf ++ new) with
+      | Some k => (Ret (text (firstn k (buf ++ new))), c')
+      | None => rup_loop f start tmo (buf ++ new) c'
+      end
+  end.
+Proof. exact rup_loop_step. Qed.
+Print Assumptions C02_returns_as_soon_as_prompt_seen.
+
+(* (2) what the prompt test means: literal prompts -- the buffer ends with the prompt *)
+Theorem C02_literal_prompt_test :
+  forall pl buf k,
+  prompt_split (Some (SLit pl)) buf = Some k <-> buf = firstn k buf ++ pl /\ k = length buf - length pl.
+Proof. exact prompt_split_literal. Qed.
+Print Assumptions C02_literal_prompt_test.
+
+(* (2b) regex prompts -- the rest of the buffer from k on is a word of the prompt's language, and k is least *)
+Theorem C02_regex_prompt_test :
+  forall r buf k,
+  prompt_split (Some (SRe r)) buf = Some k ->
+  k <= length buf /\ lang r (skipn k buf) /\ forall j, j < k -> ~ lang r (skipn j buf).
+Proof. exact prompt_split_regex. Qed.
+Print Assumptions C02_regex_prompt_test.
+
+Theorem C02_regex_prompt_test_none :
+  forall r buf,
+  prompt_split (Some (SRe r)) buf = None -> forall j, j <= length buf -> ~ lang r (skipn j buf).
+Proof. exact prompt_split_regex_none. Qed.
+Print Assumptions C02_regex_prompt_test_none.
+
+(* (3) split independence, prompt configured on the channel: two channels whose transports hold the
+       same stream S in ARBITRARY compositions into pieces (and arbitrary arrival times) give the same
+       result, text(S[:k]), and leave nothing unread -- literal and regex prompts alike *)
+Theorem C02_split_independent_channel_prompt :
+  forall c1 c2 S k,
+  wfc c1 -> wfc c2 -> deaths c1 = [] -> deaths c2 = [] ->
+  prompt c1 = prompt c2 ->
+  cpend c1 = S -> cpend c2 = S -> S <> [] ->
+  only_tail (prompt_split (prompt c1)) S k ->
+  exists c1' c2',
+    read_until_prompt None None c1 = (Ret (text (firstn k S)), c1') /\
+    read_until_prompt None None c2 = (Ret (text (firstn k S)), c2') /\
+    pend (io c1') = [] /\ pend (io c2') = [].
+Proof. exact rup_split_independent_channel. Qed.
+Print Assumptions C02_split_independent_channel_prompt.
+
+(* (3b) the same with the prompt passed per call; the channel's own prompt is restored afterwards *)
+Theorem C02_split_independent_per_call_prompt :
+  forall p c1 c2 S k,
+  wfc c1 -> wfc c2 -> deaths c1 = [] -> deaths c2 = [] ->
+  cpend c1 = S -> cpend c2 = S -> S <> [] ->
+  only_tail (prompt_split (Some p)) S k ->
+  exists c1' c2',
+    read_until_prompt (Some p) None c1 = (Ret (text (firstn k S)), c1') /\
+    read_until_prompt (Some p) None c2 = (Ret (text (firstn k S)), c2') /\
+    pend (io c1') = [] /\ pend (io c2') = [] /\
+    prompt c1' = prompt c1 /\ prompt c2' = prompt c2.
+Proof. exact rup_split_independent_per_call. Qed.
+Print Assumptions C02_split_independent_per_call_prompt.
+
+(* (4) without a timeout read_until_prompt never raises TimeoutError *)
+Theorem C02_no_timeout_without_deadline :
+  forall fuel start buf c c', rup_loop fuel start None buf c <> (ETimeout, c').
+Proof. exact rup_loop_none_no_timeout. Qed.
+Print Assumptions C02_no_timeout_without_deadline.
+
+(* non-vacuity of the hypotheses of (3)/(3b) *)
+Theorem C02_hypotheses_satisfiable :
+  only_tail (prompt_split (Some (SLit ex_prompt))) ex_stream 5 /\
+  only_tail (prompt_split (Some (SRe ex_re))) ex_stream_re 3.
+Proof. exact (conj only_tail_example_literal only_tail_example_regex). Qed.
+Print Assumptions C02_hypotheses_satisfiable.
